@@ -96,7 +96,7 @@ static char *led_render(char *s0, int cbeg, int cend, char *syn)
 			if (ren_translate(chrs[o], s0)) {
 				sbuf_str(out, ren_translate(chrs[o], s0));
 			} else if (uc_isprint(chrs[o])) {
-				sbuf_mem(out, chrs[o], uc_len(chrs[o]));
+				sbuf_mem(out, chrs[o], uc_next(chrs[o]) - chrs[o]);
 			} else {
 				for (j = i; j < cend && off[j - cbeg] == o; j++)
 					sbuf_chr(out, ' ');
